@@ -50,6 +50,22 @@ def handle : Handler
   | "mpq_inp_str", [.num base, .str s] =>
       let (ret, v, pos) := mpq_inp_str base (bytesOf s)
       some ([natTok ret] ++ (match v with | some (n, d) => [.num n, .num d] | none => []) ++ [natTok pos])
+  | "mpz_roundtrip", [.num base, .num x] =>
+      match mpz_get_str base x with
+      | none => some [.err "null"]
+      | some s => some (setStrOut (mpz_set_str (Int.ofNat base.natAbs) s))
+  | "mpz_io_roundtrip", [.num base, .num x] =>
+      let (out, w) := mpz_out_str base x
+      if out.isEmpty then some [natTok w] else
+      let r := mpz_inp_str (Int.ofNat base.natAbs) out
+      some ([natTok w, natTok r.ret] ++ (if r.ret != 0 then [.num (r.value.getD 0)] else []))
+  | "mpq_roundtrip", [.num base, .num n, .num d] =>
+      match mpq_get_str base n d with
+      | none => some [.err "null"]
+      | some s =>
+          match mpq_set_str (Int.ofNat base.natAbs) s with
+          | none => some [.num (-1)]
+          | some (n', d') => some [.num 0, .num n', .num d']
   | _, _ => none
 
 /-- mpz_sizeinbase for bases that are not powers of two: the property allows the exact digit count or one
